@@ -263,6 +263,12 @@ def derived(tier, rng):
             ("pad((2,1), edge)", lambda x: da.pad(x, (2, 1), mode="edge"), lambda a: np.pad(a, (2, 1), mode="edge")),
             ("diag(v)", lambda x: da.diag(x), lambda a: np.diag(a)),
             ("outer ones(1) + x via map_blocks", lambda x: da.map_blocks(np.add, da.ones((1,), chunks=1), x.rechunk(-1)), lambda a: 1 + a),
+            # dtype of percentile: the kernels interpolate in q's precision and keep integer inputs for nearest / lower
+            ("percentile(f4, [25, 50])", lambda x: da.percentile(x.astype("f4"), [25, 50]), lambda a: None),
+            ("percentile(f2, 30)", lambda x: da.percentile(x.astype("f2"), 30), lambda a: None),
+            ("percentile(i4, [10, 90], nearest)", lambda x: da.percentile(x.astype("i4"), [10, 90], method="nearest"), lambda a: None),
+            ("percentile(u1, f4 q, midpoint)", lambda x: da.percentile(x.astype("u1"), np.array([10, 90], dtype="f4"), method="midpoint"), lambda a: None),
+            ("bincount(i8, minlength=8)", lambda x: da.bincount(x.astype("i8"), minlength=8), lambda a: np.bincount(a.astype("i8"), minlength=8)),
             ("apply_gufunc on swv.sum [layout-drifting]",
              lambda x: da.apply_gufunc(lambda t: t * 2, "()->()", da.sliding_window_view(x, 3).sum(-1), output_dtypes=float),
              lambda a: np.lib.stride_tricks.sliding_window_view(a, 3).sum(-1) * 2),
@@ -451,6 +457,15 @@ def rewrite_targets(tier, rng):
     # root and under a reduction
     def _repeat2(x):
         return x.map_blocks(lambda b: np.repeat(b, 2), chunks=(tuple(2 * c for c in x.chunks[0]),), dtype=x.dtype)
+    # observations of a seeding agent on the unchanged tree: pushdowns that assume more than they check
+    ops1["arange(0.5,10,1.5,dtype=int)[1::2]"] = (lambda x: da.arange(0.5, 10, 1.5, dtype=int, chunks=3)[1::2], None)
+    ops1["arange(0.5,10,1.5,dtype=int)[2:5]"] = (lambda x: da.arange(0.5, 10, 1.5, dtype=int, chunks=3)[2:5], None)
+    _row = np.arange(6.0).reshape(1, 6) * 100
+    def _bw_row(x):
+        return da.blockwise(np.add, "ij", x, "ij", da.from_array(_row, chunks=((1,), x.chunks[1])), "ij", dtype=float)
+    ops2["blockwise(add, x, row(1,6))[1:2]"] = (lambda x: _bw_row(x)[1:2], lambda a: (a + _row)[1:2])
+    ops2["blockwise(add, x, row(1,6))[3]"] = (lambda x: _bw_row(x)[3], lambda a: (a + _row)[3])
+    ops2["blockwise(add, x, row(1,6))[2:, 1:4]"] = (lambda x: _bw_row(x)[2:, 1:4], lambda a: (a + _row)[2:, 1:4])
     for t in range(1, 25):
         for s_ in sorted({0, max(t - 3, 0), max(t - 9, 0)}):
             if tier == "quick" and s_ == max(t - 9, 0) and s_ not in (0, max(t - 3, 0)) and t % 2:
